@@ -45,6 +45,13 @@ EXTRA_C = [
     ("forward_call_two_callers", "void first(void); void second(void); int third(int); void helper(void); int g; void first(void){ helper(); } void second(void){ g++; helper(); } int third(int a){ first(); second(); helper(); return g + a; } void helper(void){ g += 3; }"),
     ("forward_var_two_users", "extern int late; int a1(void){ return late + 1; } int a2(void){ return late * 2; } int late = 5;"),
     ("mutual_recursion", "int even(int n); int odd(int n); int even(int n){ return n == 0 ? 1 : odd(n - 1); } int odd(int n){ return n == 0 ? 0 : even(n - 1); } int f(int a){ return even(a & 7) + 2 * odd(a & 3); }"),
+    ("two_blob_types", "struct A {int a; int b;}; struct B {int x[5];}; struct C {char c[3];}; int take(struct A p, struct B q, struct C r); "
+                       "int f(struct A p, struct B q){ struct C r; r.c[0] = 1; r.c[1] = 2; r.c[2] = 3; return take(p, q, r) + p.a + q.x[4]; } "
+                       "struct B mk(int a){ struct B b; b.x[0] = a; b.x[4] = a + 1; return b; }"),
+    ("same_forward_value_twice", "int cb(int x); int reg(int (*a)(int), int (*b)(int), int c); int user(int v){ return reg(cb, cb, v) + reg(cb, cb, 2); } "
+                                 "int reg(int (*a)(int), int (*b)(int), int c){ return a(c) + 2 * b(c + 1); } int cb(int x){ return x * 3; }"),
+    ("anonymous_members", "struct V { int tag; union { int i; float f; struct { short lo; short hi; }; }; struct { int p; int q; }; }; struct V gv; "
+                          "int f(int a){ struct V *v = &gv; v->tag = 1; v->i = a; v->p = a + 1; v->q = v->lo + 2; return v->i + v->p * 3 + v->q * 5 + v->hi; }"),
     ("void_proc", "int g; void set(int v){ g = v; } static void twice(void){ set(g*2); } int f(int a){ set(a); twice(); return g; }"),
     ("char_array_init", "char msg[] = \"hello\"; short tab[3] = {-1, 2, -3}; int f(int i){ return msg[i&3] + tab[i%3]; }"),
     ("struct_global_init", "struct P {char c; int x; short s;}; struct P gp = {1, -2, 3}; struct P *pp = &gp; int f(int a){ return pp->x + gp.s + a; }"),
